@@ -119,7 +119,9 @@ _WALL_CLOCK_USERS = ("nauyaca.security.tofu",)
 
 @contextlib.contextmanager
 def patched_time(net: SimNet):
-    time.time = lambda: EPOCH + net.now
+    # the wall clock may be stepped (NTP correction, VM resume) independently of the
+    # monotonic clock: net.wall_offset, changed by worlds through net.step_wall_clock()
+    time.time = lambda: EPOCH + net.now + getattr(net, "wall_offset", 0.0)
     time.monotonic = lambda: net.now
     swapped = []
     for name in _WALL_CLOCK_USERS:
